@@ -1,10 +1,14 @@
 import Aergo.Model.DriverLib
 import Aergo.Model.Trie
 import Aergo.Model.TrieBatch
+import Aergo.Model.TrieStore
 
 /-! Model driver for C10 (and the trie part of C11): `model-c10 < ops > out`.
 Ops: `new` | `update k=v k=DEL …` (sorted hex keys) | `get k` | `keys` | `commit` | `reopen i`.
-Roots are printed as hash *terms* (`root N E L <key> <val> <h> …`); the harness evaluates them. -/
+Roots are printed as hash *terms* (`root N E L <key> <val> <h> …`); the harness evaluates them.
+Storage layer: `sbatch <path bits | ->` prints the batch `TrieStore.layout` expects in the store under the
+batch root reached by the path in the current tree (child references as hash terms); `sget <root> <key> k=v …`
+runs `TrieStore.getRoot` (the trie's `get` through loadChildren/parseBatch) on the given store pairs. -/
 open Aergo Aergo.DriverLib Aergo.Trie
 
 def hexToBits (s : String) : Option (List Bool) := do
@@ -57,6 +61,34 @@ def c10Step (s : St) (line : String) : St × String :=
     match slots.mapM (fun x => if x == "-" then some none else (unhex x).map some) with
     | some sl => (s, "ser " ++ hex (TrieBatch.serialize { shortcut := sc == "1", slots := sl }))
     | none => (s, "bad-op")
+  | ["sbatch", path] =>
+    match (if path == "-" then some [] else path.toList.mapM fun ch => if ch == '0' then some false else if ch == '1' then some true else none) with
+    | some q =>
+      if q.length % 4 != 0 || q.length > s.height then (s, "bad-op") else
+      match TrieStore.descend s.cur q with
+      | none | some .empty => (s, "sbatch none")
+      | some sub =>
+        let h := s.height - q.length
+        let slot (x : Option (TrieStore.Slot String)) : String :=
+          match x with
+          | none => "-"
+          | some (.key k) => "K " ++ bitsToHex k
+          | some (.val v) => "V " ++ v
+          | some (.ref flag h' p t) => s!"R {flag} " ++ " ".intercalate (termAcc h' p.reverse t []).reverse
+        (s, s!"sbatch sc={TrieStore.isLeaf sub} ; " ++ " ; ".intercalate ((TrieStore.layout h q sub).map slot))
+    | none => (s, "bad-op")
+  | "sget" :: root :: key :: pairs =>
+    match unhex root, hexToBits key, pairs.mapM (fun x => match x.splitOn "=" with
+        | [k, v] => do pure ((← unhex k), (← unhex v))
+        | _ => none) with
+    | some r, some kb, some ps =>
+      let σ : TrieStore.Store := fun k => (ps.find? fun kv => kv.1 == k).map (·.2)
+      let c : HashCtx := { H := fun _ => [], enc := TrieBatch.packBits }   -- `get` never hashes
+      match TrieStore.getRoot c σ s.height r kb with
+      | .err => (s, "err")
+      | .ok none => (s, "nil")
+      | .ok (some v) => (s, hex v)
+    | _, _, _ => (s, "bad-op")
   | _ => (s, "bad-op")
 where
   batchLine (b : Option TrieBatch.Batch) : String :=
